@@ -51,7 +51,7 @@ fn script_modes(script: &[Step]) -> Vec<Mode> {
     let mut v = Vec::new();
     for s in script {
         let m = match s {
-            Step::A1 | Step::A2 => Mode::Ascii,
+            Step::A1 | Step::A2 | Step::Fnc1 => Mode::Ascii,
             Step::Seg(m, _) | Step::FinalC40Exact(m, _) | Step::FinalC40Pad(m, _) | Step::FinalC40UnlatchAscii(m, _) | Step::FinalC40ImplicitAscii(m, _) => *m,
             Step::FinalX12Exact(_) | Step::FinalX12ImplicitAscii(_) => Mode::X12,
             Step::FinalEdifactExact(_) | Step::FinalEdifactAscii(..) => Mode::Edifact,
@@ -131,6 +131,7 @@ fn witness_paths(script: &[Step], n: usize) -> Vec<Vec<(usize, EncodationType)>>
         let (m, len, tail) = match st {
             Step::A1 => (Mode::Ascii, 1, 0),
             Step::A2 => (Mode::Ascii, 2, 0),
+            Step::Fnc1 => (Mode::Ascii, 1, 0),
             Step::Seg(m, l) => (*m, *l, 0),
             Step::FinalC40Exact(m, l) | Step::FinalC40Pad(m, l) => (*m, *l, 0),
             Step::FinalC40UnlatchAscii(m, l) | Step::FinalC40ImplicitAscii(m, l) => (*m, *l, 1),
